@@ -701,7 +701,11 @@ hwloc_distances_add_commit(hwloc_topology_t topology,
   }
 
   /* in case we added some groups, see if we need to reconnect */
-  hwloc__reconnect(topology, 0);
+  if (topology->modified) {
+    hwloc__reconnect(topology, 0);
+    /* and give the new groups their total memory, depth, etc. */
+    hwloc__update_after_new_groups(topology);
+  }
 
   return 0;
 
